@@ -249,8 +249,10 @@ fn run_case_diff_ref(def: &PropDef, sc: &Scenario) -> CaseResult {
     let mut violations = vec![];
     let mut labels = vec![];
     (def.labels)(&v, &mut labels);
+    let mut watchdog = false;
     match ref_canon(sc) {
-        None => violations.push(crate::view::viol(def.id, "reference-build-unavailable", "the default-feature reference process did not answer".into())),
+        // a harness failure, never a verdict about the code under test: inconclusive
+        None => watchdog = true,
         Some((cycle, theirs)) => {
             if cycle {
                 // precondition of the property: programs with an ask cycle are out of scope
@@ -270,7 +272,7 @@ fn run_case_diff_ref(def: &PropDef, sc: &Scenario) -> CaseResult {
     let nontrivial = labels.iter().any(|l| def.nontrivial.contains(l));
     let summary = summary(&v);
     drop(v);
-    CaseResult { watchdog: false, violations, labels, nontrivial, summary, evs: out.evs }
+    CaseResult { watchdog, violations, labels, nontrivial, summary, evs: out.evs }
 }
 
 fn unknown<'a>(viols: &'a [Violation], known: &KnownFile) -> Option<&'a Violation> {
